@@ -36,7 +36,7 @@ func Run(tier string) int {
 	res.Sample(map[string]any{"pure": "A: start=101 [1:1a 0:2a]  B: start=103 [2:1a]  read at every instant", "stateful": []string{"create(s2,start-15)", "time(+10)", "mergeConvert(s1,start+15)", "clawback(F>D)"}})
 	return engine.Finish(res, engine.Meta{
 		Property: Prop, Tier: tier, Level: "model_checking", Start: start,
-		Rule: "pure: full grid of period-list pairs x start offsets x every read instant through ReadSchedule/ReadPastPeriodCount/DisjunctPeriods/ConjunctPeriods/ComputeClawback vs step-function reference; stateful: all sequences <= depth of create/merge(2 paths)/clawback/funder-update/time-jump on the real msg servers with a lock-step union/cap model, stored account compared at every event time +-1. Non-trivial = pair with differing offsets or both non-empty / successful merge or clawback distinct by model state",
+		Rule: "pure: full grid of period-list pairs x start offsets x every read instant through ReadSchedule/ReadPastPeriodCount/DisjunctPeriods/ConjunctPeriods/ComputeClawback vs step-function reference; stateful: all sequences <= depth of create/merge(2 paths)/clawback/funder-update/time-jump and grants with mismatched lockup / vesting totals (must be refused by both message kinds) on the real msg servers with a lock-step union/cap model, stored account compared at every event time +-1. Non-trivial = pair with differing offsets or both non-empty / successful merge or clawback distinct by model state",
 		Bounds: map[string]any{"stateful_depth": depth, "period_lists": "<=2 periods len{0,1,2} amt{1,2}; 3 periods len{1,2}; multi-denom <=2 periods", "offsets": []int{0, 1, 3}},
 		Assumptions: []string{
 			"union property checked for t > max(start) (statement: after both have started); capping for t outside (minStart, maxStart]",
